@@ -9,6 +9,13 @@ Stage C  the tables are re-observed independently: the generated Lean text is de
          in the thorough tier the C++ probe is rebuilt with the second compiler and must print the same table.
 Stage D  the same relations as the theorems, evaluated by a plain diff of the two tables in Python: every difference is a
          concrete witness (enumerator / message type / class) with its own signature.
+Enumerations as a user reaches them (tools/c03_py_access.py): besides `__members__` right after the import, every enumeration
+         is asked for every name and number that ANY enumeration defines through every access path (`E.NAME`, `E['NAME']`,
+         `E('NAME')`, `E.from_string`, lower-/mixed-case spellings, `E(number)`, `E[number]`, iteration, reversed,
+         `__members__`, the raise_on_unrecognized=False forms), each order of asking in its own fresh interpreter: forward and
+         reverse (in the Lean table `accessViews`; theorems C03_every_access_path_agrees, C03_access_paths_covered,
+         C03_no_name_resolves_outside_its_enumeration) plus, per run, seeded random orders / nestings judged by stage D.
+         Every answer that is not the C++ number is a violation naming enumeration, name, path, order and both numbers.
 Classification in every call form and at every moment: the C++ translator lists every DECLARATION of IsCommand / IsResponse
          in the headers (overloads, members) and the probe calls each with an argument of its declared parameter type for
          every MessageType enumerator (`callForms`, theorem C03_every_call_form_agrees); the Python translator scans every
@@ -29,6 +36,7 @@ sys.path.insert(0, os.path.dirname(os.path.dirname(os.path.abspath(__file__))))
 import c03_common as cc          # noqa: E402
 import c03_cxx_extract as cx     # noqa: E402
 import c03_py_extract as px      # noqa: E402
+import c03_py_access as pacc     # noqa: E402
 
 MODULES = ['FeVerif.Props.C03']
 GEN = os.path.join(fv.LEAN, 'FeVerif', 'Generated')
@@ -119,14 +127,14 @@ def parse_generated(path):
             if not m:
                 raise fv.InfraError('%s: unreadable generated line %r' % (path, line))
             body, comment = m.group(1).strip(), m.group(2)
-            toks = re.findall(r'0x[0-9a-f]+|\(-\d+\)|callForm_\d+|-?\d+|true|false|enum_\w+', body)
+            toks = re.findall(r'0x[0-9a-f]+|\(-\d+\)|callForm_\d+|viewOf_\w+|view_\w+|enum_\w+|-?\d+|true|false', body)
             vals = []
             for t in toks:
                 if t.startswith('0x'):
                     vals.append(cc.decode(int(t, 16)))
                 elif t in ('true', 'false'):
                     vals.append(t == 'true')
-                elif t.startswith('enum_') or t.startswith('callForm_'):
+                elif t.startswith(('enum_', 'callForm_', 'view_', 'viewOf_')):
                     vals.append(t)
                 else:
                     vals.append(int(t.strip('()')))
@@ -176,6 +184,20 @@ def correspond(ctx, cxx, py):
         want = [((v,), m) for m, v in py[key]]
         if gp.get(nm) != want:
             ctx.disagree('generated Lean %s differs from the translator output' % nm, {'lean': gp.get(nm)})
+    # the access-path views: resolve every reference of the Lean text down to the literal lists and compare with the sweeps
+    views = px.access_views(py)
+    lean_views = []
+    for (label, path, by_value, ref), _ in gp.get('accessViews', []):
+        tabs = []
+        for (en, r2), _ in gp.get(ref, []):
+            tabs.append((en, [tuple(x) for x, _ in gp.get(r2, [((None, None), '')])]))
+        lean_views.append((label, path, by_value, tabs))
+    if lean_views != views or not views:
+        ctx.disagree('generated Lean accessViews differ from what the access sweeps returned',
+                     {'lean': [v[:3] for v in lean_views], 'sweeps': [v[:3] for v in views]})
+    if [v for v, _ in gp.get('accessExtraNames', [((None,), '')])] != px.access_extras(py):
+        ctx.disagree('generated Lean accessExtraNames differ from what the access sweeps returned', {})
+    ctx.cov['traces_validated_against_impl'] += sum(len(m) for v in views for _, m in v[3])
     ctx.cov['traces_validated_against_impl'] += n
     # (2) observe the Python package directly in this process (the translator ran in a fresh interpreter)
     import importlib
@@ -426,6 +448,169 @@ def diff_tables(ctx, cxx, py, only=None):
     ctx.cov['input_distribution']['python_payload_classes'] = len(py['payload'])
 
 
+# ---- stage D, access paths: every view of every paired enumeration against the C++ table ----------------
+def diff_access(ctx, cxx, py, runs, only=None):
+    """Each run is the result of one sweep of tools/c03_py_access.py (one fresh interpreter, one order of asking).
+    A fact that the `__members__` table read right after the import already shows is left to diff_tables (same witness,
+    existing signature); everything a path answers differently from that table is judged here against C++."""
+    pairs, _ = pairing()
+    cenum = dict((e['name'], e) for e in cxx['enums'] + cxx['const_groups'])
+    penum = dict((e['name'], e) for e in py['enums'] if e['kind'] == 'declared')
+    py_of = dict((p['py'], p) for p in pairs)
+
+    found = {}        # signature -> [(description, replay)]: one finding per (enumeration, name, kind), every path / order listed
+
+    def viol(sig, desc, replay):
+        if only is None or sig == only:
+            found.setdefault(sig, []).append((desc, replay))
+
+    for run in runs:
+        det = {}
+        for d in run['details']:
+            det.setdefault((d['enum'], d['path'], d['name'], d.get('value')), d)
+        how = 'enumerations asked in the order `%s` (%s, %s; fresh interpreter)' % (
+            run['label'], ' < '.join(run['enum_order'][:3]) + ' < ...', run['nesting'])
+
+        def rep(p, path, name, cv, pv, d, base_v):
+            pos = dict((n, i) for i, n in enumerate(run['enum_order']))
+            return {'cxx_enum': p['cxx'], 'py_enum': p['py'], 'name': name, 'access_path': path,
+                    'expression': (d or {}).get('expression'), 'returned': (d or {}).get('repr', (d or {}).get('error')),
+                    'returned_member_of': (d or {}).get('class'), 'cxx_value': cv, 'py_value': pv,
+                    'py_value_in___members___right_after_import': base_v,
+                    'order': run['label'], 'nesting': run['nesting'], 'enum_order': run['enum_order'],
+                    'path_order': run['path_order'], 'asked_before_this_enumeration': run['enum_order'][:pos.get(p['py'], 0)],
+                    'spec': run['spec'], 'observe': pacc.replay_command(fv.REPO, run['spec']),
+                    'cxx': {'file': cenum[p['cxx']].get('file'), 'line': cenum[p['cxx']].get('line')}, '_detail': d}
+
+        for pth in run['paths']:
+            path = pth['path']
+            for p in pairs:
+                c, base = cenum.get(p['cxx']), penum.get(p['py'])
+                if c is None or base is None:
+                    continue                          # reported by diff_tables
+                q = run['views'].get(path, {}).get(p['py'])
+                if q is None:
+                    ctx.disagree('access sweep %s has no view of %s through %s' % (run['label'], p['py'], path), {})
+                    continue
+                cw = [(m, v) for m, v in c['members'] if m not in p['cxx_sent']]
+                qw = [(m, v) for m, v in q if m not in p['py_sent']]
+                bw = [(m, v) for m, v in base['members'] if m not in p['py_sent']]
+                cm, qm, bm = dict(cw), dict(qw), dict(bw)
+                ctx.count('access_answers_compared', len(qw))
+                ctx.case('access %s %s %s' % (run['label'], path, p['py']), nontrivial=True)
+                if not pth['by_value']:
+                    for m in sorted(set(cm) | set(qm)):
+                        if qm.get(m) == bm.get(m):
+                            continue                  # the path answers what the table says: judged by diff_tables
+                        d = det.get((p['py'], path, m, qm.get(m)))
+                        r = rep(p, path, m, cm.get(m), qm.get(m), d, bm.get(m))
+                        expr = r['expression'] or pth['expression'].format(E=p['py'], s=m)
+                        if m not in qm:
+                            if m in cm:
+                                viol('C03/enum-access/%s/%s/unresolved' % (p['cxx'], m),
+                                     '`%s` gives no value (%s) but C++ %s::%s = %d and %s.__members__[%r] = %s; %s'
+                                     % (expr, r['returned'], p['cxx'], m, cm[m], p['py'], m, bm.get(m), how), r)
+                        elif m not in cm:
+                            viol('C03/enum-access/%s/%s/missing-in-cxx' % (p['py'], m),
+                                 '`%s` returned %s = %d but C++ %s has no enumerator %s; %s'
+                                 % (expr, r['returned'], qm[m], p['cxx'], m, how), r)
+                        elif cm[m] != qm[m]:
+                            viol('C03/enum-access/%s/%s/value-differs' % (p['cxx'], m),
+                                 '`%s` returned %s: Python %s, name %s, through the access path `%s` = %d but C++ %s::%s = %d '
+                                 '(%s.__members__[%r] right after the import = %s); %s'
+                                 % (expr, r['returned'], p['py'], m, path, qm[m], p['cxx'], m, cm[m], p['py'], m, bm.get(m), how), r)
+                else:
+                    for m, v in qw:
+                        if (m, v) in cw or (m, v) in bw:
+                            continue                  # a C++ (name, number), or what the table says (judged by diff_tables)
+                        d = det.get((p['py'], path, m, v))
+                        r = rep(p, path, m, cm.get(m), v, d, bm.get(m))
+                        expr = r['expression'] or pth['expression'].format(E=p['py'], v=v)
+                        viol('C03/enum-access/%s/by-number/%s' % (p['cxx'], 'value-differs' if m in cm else 'missing-in-cxx'),
+                             '`%s` returned %s: the member reached by number through the access path `%s` is %s = %d but C++ %s'
+                             % (expr, r['returned'], path, m, v, ('%s::%s = %d' % (p['cxx'], m, cm[m])) if m in cm
+                                else '%s has no enumerator %s' % (p['cxx'], m)) + '; ' + how, r)
+                    reached = set(v for _, v in qw)
+                    for m, v in cw:
+                        if v in reached or v not in bm.values():
+                            continue                  # reached, or no member of that number in the table (diff_tables)
+                        if [m2 for m2, v2 in cw if v2 == v][0] != m:
+                            continue                  # an alias: reported once, under the first name of the number
+                        d = next((x for x in run['details'] if x['enum'] == p['py'] and x['path'] == path and x.get('asked') == v), None)
+                        r = rep(p, path, m, v, None, d, bm.get(m))
+                        expr = r['expression'] or pth['expression'].format(E=p['py'], v=v)
+                        viol('C03/enum-access/%s/by-number/number-unresolved' % p['cxx'],
+                             '`%s` gives no member of %s for the number %d (%s) but C++ %s::%s = %d; %s'
+                             % (expr, p['py'], v, r['returned'], p['cxx'], m, v, how), r)
+        # names / numbers that resolved in an enumeration that does not define them: one finding per enumeration
+        per = {}
+        for x in run['extras']:
+            per.setdefault(x['enum'], []).append(x)
+        for en, xs in sorted(per.items()):
+            p = py_of.get(en)
+            if p is None or p['cxx'] not in cenum:
+                continue
+            x = xs[0]
+            cm = dict(cenum[p['cxx']]['members'])
+            r = rep(p, x['path'], x['name'], cm.get(x['name']), x['value'], x, None)
+            r['further_examples'] = [(y['path'], y['expression'], y['repr']) for y in xs[1:8]]
+            r['look_ups_of_this_kind_in_this_sweep'] = run['extras_total']
+            viol('C03/enum-access/%s/names-not-in-cxx' % p['cxx'],
+                 '`%s` returned %s: through the access path `%s` Python %s has a named value %s = %d, which neither C++ %s nor '
+                 '%s.__members__ defines (%s); %d such answers listed for this enumeration, %d in the sweep; %s'
+                 % (x['expression'], x['repr'], x['path'], en, x['name'], x['value'], p['cxx'], en, x['why'], len(xs),
+                    run['extras_total'], how), r)
+    n_min = 0
+    for sig, lst in found.items():
+        desc, replay = lst[0]
+        d = replay.pop('_detail', None)
+        if d and n_min < 3 and d.get('class') and d['class'] != d['enum'] and d.get('asked') is not None:
+            # shortest history: the same question put to the enumeration whose member came back, then to this one
+            n_min += 1
+            try:
+                alone = pacc.run_steps(fv.REPO, [[d['enum'], d['path'], d['asked']]])
+                two = pacc.run_steps(fv.REPO, [[d['class'], d['path'], d['asked']], [d['enum'], d['path'], d['asked']]])
+                replay['shortest_history'] = {
+                    'in_a_fresh_interpreter_alone': alone, 'after_asking_the_other_enumeration_first': two,
+                    'reproduces': two[-1].get('value') == d.get('value') and alone[-1].get('value') != d.get('value')}
+                if replay['shortest_history']['reproduces']:
+                    desc += '; shortest history (fresh interpreter): `%s` then `%s` -> %s, alone -> %s' % (
+                        two[0]['expression'], two[1]['expression'], two[1].get('repr', two[1].get('error')),
+                        alone[0].get('repr', alone[0].get('error')))
+            except (RuntimeError, subprocess.TimeoutExpired) as e:
+                replay['shortest_history'] = {'not_run': str(e)}
+        if len(lst) > 1:
+            also = {}
+            for _, r in lst:
+                also.setdefault(r['access_path'], []).append(r['order'])
+            names = sorted(set(r['name'] for _, r in lst))
+            desc += '; %d findings of this kind%s: %s' % (len(lst), '' if len(names) == 1 else ' (names %s%s)' % (
+                ', '.join(names[:6]), ', ...' if len(names) > 6 else ''), ', '.join(
+                '%s (%s)' % (k, '/'.join(sorted(set(v)))) for k, v in also.items()))
+            replay = dict(replay, all_answers_of_this_kind=[
+                {'access_path': r['access_path'], 'order': r['order'], 'expression': r['expression'], 'returned': r['returned'],
+                 'name': r['name'], 'py_value': r['py_value'], 'cxx_value': r['cxx_value']} for _, r in lst[:200]])
+        replay.pop('_detail', None)
+        ctx.violation(sig, desc, replay)
+    ctx.cov['input_distribution']['access_sweeps'] = ctx.cov['input_distribution'].get('access_sweeps', []) + [
+        '%s (%s, %d asks)' % (run['label'], run['nesting'], run['asks']) for run in runs]
+    if runs:
+        ctx.cov['input_distribution']['access_paths'] = [pth['expression'] for pth in runs[0]['paths']]
+
+
+def random_sweeps(ctx, specs):
+    from concurrent.futures import ThreadPoolExecutor
+    res = []
+    with ThreadPoolExecutor(max_workers=4) as ex:
+        futs = [(sp, ex.submit(pacc.run_sweep, fv.REPO, sp)) for sp in specs]
+        for sp, f in futs:
+            try:
+                res.append(f.result())
+            except RuntimeError as e:
+                ctx.disagree('access sweep failed: %s' % e, {'spec': sp})
+    return res
+
+
 def failed_theorems(build_output):
     """Names of the theorems of Props/C03.lean at whose lines the build reported errors."""
     path = os.path.join(fv.LEAN, 'FeVerif', 'Props', 'C03.lean')
@@ -465,6 +650,9 @@ def run(ctx, only=None):
         'completeness of each enumerator list is checked by the compiler: switch without default under -Werror=switch; '
         'number of blocks checked against a grep count); its hand-written CONST_GROUPS list (ros::GPSFixMessage::COVARIANCE_TYPE_*)',
         'tools/c03_py_extract.py (run-time walk of the imported working tree, equal to the ast.parse view of the class bodies)',
+        'tools/c03_py_access.py as the list of access paths a user has from a name / number to a member (PATHS) and of the '
+        'orders tried (forward, reverse, seeded random orders and nestings); state shared between enumerations that needs a '
+        'history outside those sweeps to show is not seen',
         'tools/c03_py_alias.py as the reader of "which statements can modify the tables" (may-alias scan of every package module; '
         'aliasing through containers, getattr()/globals() strings other than the listed forms, or code outside the package is not seen)',
         'tools/c03_cxx_extract.py as the reader of the DECLARATIONS of IsCommand/IsResponse (every textual occurrence of either name '
@@ -473,6 +661,9 @@ def run(ctx, only=None):
         'g++/clang++ and CPython as the evaluators of the two languages']
     correspond(ctx, cxx, py)
     diff_tables(ctx, cxx, py, only)
+    # the two orders of the Lean table + seeded random orders / nestings (each in its own fresh interpreter)
+    n_random = 12 if ctx.thorough else 3
+    diff_access(ctx, cxx, py, py['access'] + random_sweeps(ctx, [pacc.random_spec(ctx.seed, k) for k in range(n_random)]), only)
     ctx.sample({'cxx': 'MessageType::STARTUP_REQUEST = %s, IsCommand=%s' % next(
         ((v, c) for m, v, c, r in cxx['classification'] if m == 'STARTUP_REQUEST'), (None, None)),
         'py': 'STARTUP_REQUEST in COMMAND_MESSAGES = %s' % any(m == 'STARTUP_REQUEST' for m, _ in py['command'])})
@@ -489,7 +680,9 @@ def search(ctx):
 
 def check(ctx):
     ctx.cov['rule'] = ('exhaustive: every enumerator of every `enum class` block of src/point_one/fusion_engine/messages/*.h (plus the '
-                       'listed static-const group) against the paired Python IntEnum; every MessageType enumerator x {IsCommand, '
+                       'listed static-const group) against the paired Python IntEnum, read from `__members__` after the import AND '
+                       'through every access path of tools/c03_py_access.py (every enumeration asked for every name and number of '
+                       'every enumeration; orders forward, reverse + seeded random, one fresh interpreter each); every MessageType enumerator x {IsCommand, '
                        'IsResponse} x every call form the headers declare (each overload / member, called with an argument of its '
                        'declared parameter type); every module of python/fusion_engine_client scanned (aliases followed) for '
                        'statements modifying the classification sets / registry, each site executed in a fresh interpreter; every struct declaring MESSAGE_TYPE/MESSAGE_VERSION against the MessagePayload subclasses and '
@@ -517,4 +710,9 @@ def replay(ctx, path):
     except cc.TranslateError as e:
         raise fv.InfraError('replay: translators failed: %s' % e)
     diff_tables(ctx, cxx, py, only=sig)
+    runs = list(py['access'])
+    spec = (obj.get('input') or {}).get('spec')
+    if spec and spec.get('label') not in [r['label'] for r in runs]:
+        runs += random_sweeps(ctx, [spec])
+    diff_access(ctx, cxx, py, runs, only=sig)
     return fv.finish(ctx, 'proof', None)
